@@ -47,7 +47,7 @@ def _same_value(c0, v0, c1, v1):
     return [compare('==', x, y) for x, y in zip(A0.shape, A1.shape)] + [c1.forall(list(A0.shape), lambda *idx: A1[idx] == A0[idx], 'same content')]
 
 
-def _make(qual, maker, fields, getter, setter, props, invariant=None, variants=('state',)):
+def _make(qual, maker, fields, getter, setter, props, invariant=None, variants=('state',), cls_arg=None):
     keys = tuple(fields)
 
     class Get(Contract):
@@ -61,6 +61,9 @@ def _make(qual, maker, fields, getter, setter, props, invariant=None, variants=(
             return dict(self=maker(c))
 
         def ensures(self, c, a, result, old):
+            if getter == 'to_table':
+                from sedvc.extmodels import is_table
+                return {'returns_a_table': is_table(c.st, result)}
             # the representation of the state is the class's own business (the round trip is verified by the
             # contract of %s); here: a dictionary comes back and the object is left alone (frame)
             return {'returns_a_dictionary': isinstance(result, DictRef)}
@@ -80,9 +83,9 @@ def _make(qual, maker, fields, getter, setter, props, invariant=None, variants=(
             found = c.interp.repo.find_function(qual + '.' + getter)
             fr = Frame(found[0], qual + '.' + getter, found[1])
             d = c.interp.call(RepoFunc(qual + '.' + getter, bound_self=donor), [], {}, c.st, fr)
-            if setter == 'from_dict':
+            if cls_arg or setter == 'from_dict':
                 from sedvc.interp import ClassVal
-                return dict(cls=ClassVal(c.interp.repo.find_class(qual)), source_dict=d)
+                return {'cls': ClassVal(c.interp.repo.find_class(qual)), (cls_arg or 'source_dict'): d}
             return dict(self=c.obj(qual), d=d)
 
         def requires(self, c, a):
@@ -90,7 +93,7 @@ def _make(qual, maker, fields, getter, setter, props, invariant=None, variants=(
             return {'state_of_a_well_formed_object': invariant(c, self.donor)} if invariant is not None else {}
 
         def ensures(self, c, a, result, old):
-            obj = result if setter == 'from_dict' else a.self
+            obj = result if (cls_arg or setter == 'from_dict') else a.self
             if not isinstance(obj, ObjRef):
                 return {'yields_an_object': False}
             out = {}
@@ -130,3 +133,4 @@ _make(SOURCE, _source, SRC_FIELDS, 'to_dict', 'from_dict', ('C20',), invariant=w
 # FitInfo: its round trip is verified where the code performs it -- FitInfoFile.__iter__ (in-memory results are yielded as
 # __setstate__(__getstate__(x)) copies: contracts/fitinfo_file.py, clause items_equal_the_results) -- with both methods inlined.
 _make(EXT, _extinction, dict(wav='_wav', chi='_chi'), '__getstate__', '__setstate__', ('C14', 'C10', 'C17'), variants=('micron/cgs', 'AA/si'))
+_make(EXT, _extinction, dict(wav='_wav', chi='_chi'), 'to_table', 'from_table', ('C14',), variants=('micron/cgs', 'AA/si'), cls_arg='table')
